@@ -278,6 +278,23 @@ def check_direction(ctx, rep, rule='M-direction'):
                    'comparator called as (query, &node.key)=%s' % (fn, ORD.get(o), exp_child, '' if exp_rec else 'not ', looked, recorded, args_ok),
                    loc=b.loc(b.j['line_lo']), reason='table-row')
         rep.floor(rule, '%s orderings' % fn, len(set(k for k, _ in seen)), 3)
+        # the descent goes on while there is a child on the chosen side: for every ordering there is a path that follows the child
+        # into the next iteration, and no path that has found such a child leaves the loop
+        follows = set()
+        stops = []
+        for p, o, args_ok in [(p, o, a) for p in ps for (o, a) in _orderings(p, b)]:
+            has_child = None
+            for (v, c) in p.conds:
+                sv = show(noepoch(v))
+                if strip_upd(v)[0] == 'discr' and re.search(r'\.(left|right)\)$', sv):
+                    has_child = (c == ('eq', 1))
+            if has_child and p.end == 'backedge':
+                follows.add(o)
+            elif has_child and p.end == 'return':
+                stops.append(ORD.get(o))
+        rep.ob(rule, '%s:descends' % fn, follows == {LESS, EQUAL, GREATER} and not stops,
+               '%s(): the search must continue into the child it chose whenever that child exists; it continues for %s and stops at an '
+               'existing child for %s' % (fn, sorted(ORD.get(o) for o in follows), sorted(set(stops))), loc=b.loc(b.j['line_lo']), reason='table-row')
     # insert: old root goes to the right of the new node exactly on Less
     b, ps = rep.explore(ctx, T + 'insert', rule, opaque=('splay::node::Node',))
     if b is not None:
